@@ -109,7 +109,7 @@ _MISSING = object()
 # They are put back to their import-time content at the start of every run, so that a run never depends on the runs
 # that happened to precede it in the same worker.
 _STATE_MODULES = ("molli._aux.lock", "molli.storage.backends", "molli.storage.ukvfile", "molli.storage.collection",
-                  "molli.chem.library", "molli.pipeline.job", "molli.pipeline.runner", "molli.pipeline.driver")
+                  "molli.chem.library", "molli.chem.io", "molli.chem.ensemble", "molli.pipeline.job", "molli.pipeline.runner", "molli.pipeline.driver")
 _STATE_SNAPSHOT = None
 
 
